@@ -342,25 +342,45 @@ func decompressFrom(c compress.Codec, source io.Reader, dst func() int) ([]byte,
 	var res []byte
 	var ns []int
 	k := 0
+	var scratch []byte
 	for {
 		// the caller's buffer is a PREFIX of a larger array every other call (len(p) < cap(p): buf[:n] slicing,
 		// io.LimitedReader, scratch arrays); the spare capacity is filled with a sentinel that Read must not touch
 		want := dst()
 		spare := 0
-		if k%2 == 1 {
-			spare = []int{1, 100, 4096, 70000}[(k/2)%4]
+		switch {
+		case k%2 == 0:
+		case k < 8 || k%64 == 1: // a whole block (up to 32 KiB and more) fits into the spare capacity
+			spare = 70000
+		case k%16 == 3:
+			spare = 4096
+		default:
+			spare = []int{1, 100}[(k/2)%2]
 		}
 		k++
-		backing := make([]byte, want+spare)
-		for i := want; i < len(backing); i++ {
+		if cap(scratch) < want+spare {
+			scratch = make([]byte, want+spare)
+		}
+		backing := scratch[:want+spare]
+		// sentinels right behind len(p) and at the end of the capacity (the whole spare is not refilled on every call)
+		guards := []int{}
+		for i := want; i < len(backing) && i < want+64; i++ {
+			guards = append(guards, i)
+		}
+		for i := len(backing) - 64; i < len(backing); i++ {
+			if i >= want+64 {
+				guards = append(guards, i)
+			}
+		}
+		for _, i := range guards {
 			backing[i] = 0xA5
 		}
-		buf := backing[:want]
+		buf := backing[:want:len(backing)]
 		n, err := r.Read(buf)
 		if n < 0 || n > len(buf) {
 			return res, append(ns, n), fmt.Errorf("Read(p) with len(p)=%d cap(p)=%d returned n=%d: io.Reader contract violated", len(buf), cap(buf), n)
 		}
-		for i := want; i < len(backing); i++ {
+		for _, i := range guards {
 			if backing[i] != 0xA5 {
 				return res, append(ns, n), fmt.Errorf("Read(p) with len(p)=%d cap(p)=%d wrote beyond len(p)", len(buf), cap(buf))
 			}
@@ -824,7 +844,7 @@ func main() {
 	thorough := gen.Thorough()
 	rounds := 1
 	if thorough {
-		rounds = 6
+		rounds = 5
 	}
 	cs := codecs()
 	if len(os.Args) > 2 && os.Args[1] == "pristine" {
@@ -1060,6 +1080,67 @@ func main() {
 					return "ok " + sum(got)
 				}))
 				_ = want
+			}
+		}
+		// --- mixed use (round 7): a few Reads, then io.Copy FROM the reader (io.Copy picks WriteTo when the reader has
+		// one); a few Writes, then io.Copy INTO the writer (ReadFrom when the writer has one).  Every byte exactly once.
+		for _, cc := range cs {
+			for i := 0; i < 4; i++ {
+				p := payload(r, r.Intn(3), []int{300, 5000, 40000, 70000}[i])
+				stream, err := compressChunks(cc.codec, p, []int{len(p)})
+				if err != nil {
+					continue
+				}
+				nreads := 1 + r.Intn(3)
+				sz := []int{1, 7, 100, 3000}[r.Intn(4)]
+				emit(fmt.Sprintf("rt %s mixr%dx%d %s", cc.name, nreads, sz, sum(p)), guard(func() string {
+					rd := cc.codec.NewReader(bytes.NewReader(stream))
+					defer rd.Close()
+					var got []byte
+					for j := 0; j < nreads; j++ {
+						buf := make([]byte, sz)
+						n, err := rd.Read(buf)
+						got = append(got, buf[:n]...)
+						if err != nil {
+							if errors.Is(err, io.EOF) {
+								break
+							}
+							return "error:read:" + err.Error()
+						}
+					}
+					var rest bytes.Buffer
+					if _, err := io.Copy(&rest, rd); err != nil {
+						return "error:copy-after-read:" + strings.ReplaceAll(err.Error(), " ", "_")
+					}
+					got = append(got, rest.Bytes()...)
+					return "ok " + sum(got)
+				}))
+				nw := 1 + r.Intn(3)
+				emit(fmt.Sprintf("rt %s mixw%dx%d %s", cc.name, nw, sz, sum(p)), guard(func() string {
+					var buf bytes.Buffer
+					w := cc.codec.NewWriter(&buf)
+					rest := p
+					for j := 0; j < nw && len(rest) > sz; j++ {
+						if _, err := w.Write(rest[:sz]); err != nil {
+							w.Close()
+							return "error:write:" + err.Error()
+						}
+						rest = rest[sz:]
+					}
+					// the source must not offer WriteTo itself, or io.Copy never asks the writer for ReadFrom
+					if _, err := io.Copy(w, struct{ io.Reader }{bytes.NewReader(rest)}); err != nil {
+						w.Close()
+						return "error:copy-after-write:" + strings.ReplaceAll(err.Error(), " ", "_")
+					}
+					if err := w.Close(); err != nil {
+						return "error:close:" + err.Error()
+					}
+					d, err := refDecode(cc.name, buf.Bytes())
+					if err != nil {
+						return "error:not-readable-by-the-reference-decoder:" + strings.ReplaceAll(err.Error(), " ", "_")
+					}
+					return "ok " + sum(d)
+				}))
 			}
 		}
 		// --- srcerr: the underlying reader fails after k bytes: an error (or the full payload), never wrong data
